@@ -445,19 +445,14 @@ void StructSyncManager::sync_struct_members_from_direct_access(
                                         DebugMsgId::GENERIC_DEBUG,
                                         "SYNC_STRUCT: Copied element[%d] = ");
                                 }
-                                // 多次元配列の場合は multidim_array_values
-                                // にも設定
-                                if (var->struct_members[member.name]
-                                        .is_multidimensional) {
-                                    var->struct_members[member.name]
-                                        .multidim_array_values[i] =
-                                        element_var->value;
-                                    if (interpreter_->debug_mode) {
-                                        debug_msg(DebugMsgId::GENERIC_DEBUG,
-                                                  "SYNC_STRUCT: Copied "
-                                                  "element[%d] = ");
-                                    }
-                                }
+                                // A multidimensional member keeps its
+                                // cells in the flat row-major
+                                // multidim_array_values (restored above).
+                                // The element variables "<member>[i]" only
+                                // exist for the first extent and never see
+                                // writes to a[i][j]; copying them over flat
+                                // cells 0..extent0-1 reset those cells on
+                                // every sync, so they are not copied.
                             }
                         }
                     } else if (found_in_struct_members &&
@@ -481,12 +476,8 @@ void StructSyncManager::sync_struct_members_from_direct_access(
                                            direct_var->array_values.size())) {
                             var->struct_members[member.name].array_values[i] =
                                 direct_var->array_values[i];
-                            if (var->struct_members[member.name]
-                                    .is_multidimensional) {
-                                var->struct_members[member.name]
-                                    .multidim_array_values[i] =
-                                    direct_var->array_values[i];
-                            }
+                            // (multidim_array_values is not touched, see
+                            // above)
                         }
                     }
                 }
